@@ -236,7 +236,16 @@ func c19Check(env *h.Env, c *c19Case) error {
 		NotifyHashed:  nl.Fn,
 		ContentHasher: h.Hasher,
 		MetadataOnly: func(p string, st *types.Stat) bool {
-			return sel[filepath.ToSlash(p)] || rejected[filepath.ToSlash(p)] && selOrig(c, filepath.ToSlash(p))
+			if sel[filepath.ToSlash(p)] || rejected[filepath.ToSlash(p)] && selOrig(c, filepath.ToSlash(p)) {
+				return true
+			}
+			// (a selector is a FilterFunc: it may scribble on the stat it turns down;
+			// the listing records what was announced)
+			// (directories excepted: a turned-down directory is replayed as an ancestor later)
+			if !os.FileMode(st.Mode).IsDir() {
+				st.ModTime, st.Uid, st.Size = 42, 4242, st.Size+1
+			}
+			return false
 		},
 	}
 	if len(c.Reject) > 0 {
